@@ -752,6 +752,15 @@ class BaseSection(base.Sectionable):
                 self.include = self._include
             return
 
+        # A Section cannot take copies of itself or of one of its ancestors:
+        # every copy would again contain the Section that is being merged.
+        node = self
+        while node is not None:
+            if node is section:
+                raise ValueError("odml.Section.merge: a Section cannot be merged with "
+                                 "itself or with one of its ancestors")
+            node = node.parent
+
         # Check all the way down the tree if the destination source and
         # its children can be merged with self and its children since
         # there is no rollback in case of a downstream merge error.
